@@ -1060,6 +1060,8 @@ impl<const M: usize> Exec<M> {
         // expectations computed before the call
         let cap_before = obs_before.as_ref().map(|o| o.cap).unwrap_or(0);
         let mut expect_no_malloc: Option<(&'static str, &'static str)> = None;
+        // nothing obtained from the global allocator since the last `reset`: the retained block is still all the arena has
+        let fresh_after_reset = self.resets > 0 && !self.grown_since_reset;
         let req_layout: Option<(usize, usize)> = match op {
             Op::Alloc { sz, al, .. } | Op::AAlloc { sz, al } | Op::SendAlloc { sz, al } => Some((*sz, *al)),
             Op::Val { ty, .. } => Some(with_ty!(*ty, T => (std::mem::size_of::<T>(), std::mem::align_of::<T>()))),
@@ -1878,6 +1880,11 @@ impl<const M: usize> Exec<M> {
         if let Some((prop, name)) = expect_no_malloc {
             if evs.iter().any(|e| matches!(e, Ev::Malloc { .. })) || !matches!(res, Res::Ok(_) | Res::OkInner(..)) {
                 self.fail(prop, name, format!("{} cap-before={} res={} evt={}", op.to_text(), cap_before, res.text(), evs_to_str(&evs)));
+                if prop == "C18" && fresh_after_reset {
+                    // C06: after a reset the arena hands out the full usable capacity of the retained block without asking the
+                    // global allocator
+                    self.fail("C06", "retained-capacity-not-reusable-after-reset", format!("{} cap-before={} res={} evt={}", op.to_text(), cap_before, res.text(), evs_to_str(&evs)));
+                }
             }
         }
         if matches!(op, Op::Reset | Op::Drop) && !self.tok_ranges.is_empty() {
